@@ -905,6 +905,18 @@ func (g *HistGen) genNative() {
 		e := pick(g.r, texts[4:6])
 		g.ops = append(g.ops, &Op{Op: "registerUpdater", Table: HexS(t.Name), Expr: HexS(e), ID: g.r.Intn(6)})
 		g.regs = append(g.regs, e)
+	case 3:
+		// a registration under a name that continues a live table's name with the separator a
+		// concatenated key would use: it belongs to another (here non-existent) table and must
+		// never answer for t, whose request text starts with the rest of that name
+		sep := pick(g.r, []string{"|", ".", "\\", "\\.", "|v|"})
+		e := pick(g.r, []string{"= :x", "v = :x", "SET v = :x"})
+		if strings.HasPrefix(e, "SET") {
+			g.ops = append(g.ops, &Op{Op: "registerUpdater", Table: HexS(t.Name + sep + "w"), Expr: HexS(e), ID: g.r.Intn(6)})
+		} else {
+			g.ops = append(g.ops, &Op{Op: "registerMatcher", Table: HexS(t.Name + sep + "w"), Kind: pick(g.r, []string{"key", "filter", "cond"}), Expr: HexS(e), ID: g.r.Intn(6)})
+		}
+		g.regs = append(g.regs, "w"+sep+e)
 	default:
 		e := pick(g.r, texts)
 		g.ops = append(g.ops, &Op{Op: "registerMatcher", Table: HexS(t.Name), Kind: pick(g.r, []string{"key", "filter", "cond"}), Expr: HexS(e), ID: g.r.Intn(6)})
